@@ -253,3 +253,11 @@ def replay(case, seed):
     r = core.Result()
     run_point(r, seed, case['scheme'], case['point'], case['cfg'], case.get('deleted'))
     return r['violations']
+
+# a subset of the units is executed again in other environments (child interpreters): see core.run_variants
+ENV_VARIANTS = [{'name': 'python-O', 'flags': ['-O']}]
+
+def variant_units(tier, seed, name):
+    pred = lambda uid, p: p.get('lo') == 0
+    return [u for u in units('quick', seed) if pred(u[0], u[1])]
+
